@@ -309,6 +309,26 @@ func rulePrefix(c *RC) *RuleResult {
 	return r
 }
 
+// configDefaults: Config fields that defaultConfig sets to a non-nil value.
+func (c *RC) configDefaults() map[string]bool {
+	out := map[string]bool{}
+	if dc := c.Prog.fn("defaultConfig"); dc != nil {
+		for _, mem := range c.clusterFns(dc) {
+			ast.Inspect(mem.Decl.Body, func(n ast.Node) bool {
+				if kv, ok := n.(*ast.KeyValueExpr); ok {
+					if id, ok := kv.Key.(*ast.Ident); ok {
+						if v, ok := ast.Unparen(kv.Value).(*ast.Ident); !ok || v.Name != "nil" {
+							out[id.Name] = true
+						}
+					}
+				}
+				return true
+			})
+		}
+	}
+	return out
+}
+
 // IDX
 func ruleIdx(c *RC) *RuleResult {
 	r := &RuleResult{Rule: "IDX", Kind: "IDX", Doc: "every index into Validators or a per-validator table is a range key over such a table, an admitted sender index, MyIndex under MyIndex>=0, or the primary index"}
@@ -421,32 +441,13 @@ func ruleOptionalCB(c *RC) *RuleResult {
 		return r
 	}
 	required := map[string]bool{}
-	for _, st := range cc.Decl.Body.List {
-		ifs, ok := st.(*ast.IfStmt)
-		if !ok {
-			continue
-		}
-		be, ok := ifs.Cond.(*ast.BinaryExpr)
-		if !ok || be.Op.String() != "==" {
-			continue
-		}
-		if id, ok := be.Y.(*ast.Ident); !ok || id.Name != "nil" {
-			continue
-		}
-		if sel, ok := be.X.(*ast.SelectorExpr); ok {
-			required[sel.Sel.Name] = true
-		}
+	nonNil, _ := c.configFacts()
+	for f := range nonNil {
+		required[f] = true
 	}
 	// defaults provided by defaultConfig count as present
-	if dc := c.Prog.fn("defaultConfig"); dc != nil {
-		ast.Inspect(dc.Decl.Body, func(n ast.Node) bool {
-			if kv, ok := n.(*ast.KeyValueExpr); ok {
-				if id, ok := kv.Key.(*ast.Ident); ok {
-					required[id.Name] = true
-				}
-			}
-			return true
-		})
+	for f := range c.configDefaults() {
+		required[f] = true
 	}
 	enabling := map[string]func() *Formula{
 		"NewPreBlockFromContext": fAMEV, "ProcessPreBlock": fAMEV, "NewPreCommit": fAMEV,
